@@ -332,6 +332,19 @@ package apd
 //@ axiom mul_lt(a: int, b: int, k: int): k > 0 && a < b ==> a * k < b * k
 //@ axiom mul_le(a: int, b: int, k: int): k >= 0 && a <= b ==> a * k <= b * k
 
+//@ lemma {C01,C02,C10,C20} divmod_unique(a: int, b: int, q: int, r: int): b > 0 && a == q * b + r && 0 <= r && r < b ==> div(a, b) == q && mod(a, b) == r
+//@ lemma {C01,C02,C20} sticky(A: int, B: int, T2: int, T: int, T10: int): B > 0 && T2 >= 1 && T == 10 * T2 && T10 == 10 * T && A >= 0 && mod(A, B) != 0 ==> div(10 * div(A, B) + 1, T10) == div(A, B * T) && mod(10 * div(A, B) + 1, T10) != 0 && mod(A, B * T) != 0 && sgn(2 * mod(10 * div(A, B) + 1, T10) - T10) == sgn(2 * mod(A, B * T) - B * T)
+//@   using divmod_unique(A, B * T, div(div(A, B), T), mod(div(A, B), T) * B + mod(A, B))
+//@   using divmod_unique(10 * div(A, B) + 1, T10, div(div(A, B), T), 10 * mod(div(A, B), T) + 1)
+//@   using mul_le(mod(div(A, B), T) + 1, T, B)
+//@   using mul_le(mod(div(A, B), T) + 1, 5 * T2, B)
+//@   using mul_le(5 * T2, mod(div(A, B), T), B)
+//@ lemma {C01,C02,C20} divexact(A: int, B: int, T: int): B > 0 && T > 0 && A >= 0 && mod(A, B) == 0 ==> div(div(A, B), T) == div(A, B * T) && (mod(div(A, B), T) == 0 <==> mod(A, B * T) == 0) && sgn(2 * mod(div(A, B), T) - T) == sgn(2 * mod(A, B * T) - B * T)
+//@   using divmod_unique(A, B * T, div(div(A, B), T), mod(div(A, B), T) * B)
+//@   using mul_lt(mod(div(A, B), T), T, B)
+//@   using mul_lt(2 * mod(div(A, B), T), T, B)
+//@   using mul_lt(T, 2 * mod(div(A, B), T), B)
+
 //@ define dsign(x: *Decimal): int = ite(x.Form == Finite && val(x.Coeff) == 0, 0, ite(x.Negative, -1, 1))
 //@ define cmpmag(Cd: int, Ed: int, Cx: int, Ex: int): int = sgn(Cd * pow10(Ed - min(Ed, Ex)) - Cx * pow10(Ex - min(Ed, Ex)))
 //@ define cmpsigned(d: *Decimal, x: *Decimal): int = ite(dsign(d) != dsign(x), sgn(dsign(d) - dsign(x)), ite(dsign(d) == 0, 0, ite(d.Form == Infinite, ite(x.Form == Infinite, 0, dsign(d)), ite(x.Form == Infinite, -dsign(d), dsign(d) * cmpmag(val(d.Coeff), d.Exponent, val(x.Coeff), x.Exponent)))))
@@ -650,8 +663,14 @@ package apd
 //@   assert before (*BigInt).Cmp#1: [scaled0] old(inrange(x) && inrange(y)) ==> val(dividend) == old(QA0(x, y)) && val(divisor) == old(QB(x, y))
 //@   assert before tableExp10#3: [scaled1] old(inrange(x) && inrange(y)) ==> val(dividend) == old(QA1(x, y)) && val(divisor) == old(QB(x, y)) && adjCoeffs == -old(qdd(x, y)) + old(qlt(x, y))
 //@   assert before (*BigInt).QuoRem#1: [scaled] wfctx(c) && old(inrange(x) && inrange(y)) ==> val(dividend) == old(QA(c, x, y)) && val(divisor) == old(QB(x, y)) && shift - adjCoeffs - adjExp10 == old(QE(c, x, y))
+//@   hint val(x.Coeff) > 0 && val(y.Coeff) > 0 && c.Precision >= 1 ==> pow10(c.Precision + 1) == 10 * pow10(c.Precision) && nd10(10 * div(QA(c, x, y), QB(x, y)) + 1) == c.Precision + 1
+//@   hint sticky(QA(c, x, y), QB(x, y), pow10(etiny(c) - QE(c, x, y) - 1), pow10(etiny(c) - QE(c, x, y)), pow10(etiny(c) - QE(c, x, y) + 1))
+//@   hint divexact(QA(c, x, y), QB(x, y), pow10(etiny(c) - QE(c, x, y)))
+//@   assert before (*Decimal).setExponent#2: [subinexact] wfctx(c) && old(inrange(x) && inrange(y)) && old(QE(c, x, y)) + c.Precision - 1 < c.MinExponent && mod(old(QA(c, x, y)), old(QB(x, y))) != 0 ==> val(d.Coeff) == 10 * div(old(QA(c, x, y)), old(QB(x, y))) + 1 && *diff == -1 && nd == -1 && res == 0 && d.Form == Finite && d.Negative == old(x.Negative != y.Negative)
+//@   assert before (*Decimal).setExponent#2: [subexact] wfctx(c) && old(inrange(x) && inrange(y)) && old(QE(c, x, y)) + c.Precision - 1 < c.MinExponent && mod(old(QA(c, x, y)), old(QB(x, y))) == 0 ==> val(d.Coeff) == div(old(QA(c, x, y)), old(QB(x, y))) && *diff == 0 && nd == c.Precision && res == 0 && d.Form == Finite && d.Negative == old(x.Negative != y.Negative)
 //@   ensures [qnorm] wfctx(c) && old(bothfin(x, y) && !iszero(y) && !iszero(x) && inrange(x) && inrange(y)) && old(QE(c, x, y)) + c.Precision - 1 >= c.MinExponent ==> RoundedQ(c, old(x.Negative != y.Negative), old(QA(c, x, y)), old(QB(x, y)), old(QE(c, x, y)), d, ret0)
-//@   ensures [qsub] wfctx(c) && old(bothfin(x, y) && !iszero(y) && !iszero(x) && inrange(x) && inrange(y)) && old(QE(c, x, y)) + c.Precision - 1 < c.MinExponent ==> RoundedQ(c, old(x.Negative != y.Negative), old(QA(c, x, y)), old(QB(x, y)), old(QE(c, x, y)), d, ret0)
+//@   ensures [qsubx] wfctx(c) && old(bothfin(x, y) && !iszero(y) && !iszero(x) && inrange(x) && inrange(y)) && old(QE(c, x, y)) + c.Precision - 1 < c.MinExponent && mod(old(QA(c, x, y)), old(QB(x, y))) == 0 ==> RoundedQ(c, old(x.Negative != y.Negative), old(QA(c, x, y)), old(QB(x, y)), old(QE(c, x, y)), d, ret0)
+//@   ensures [qsubi] wfctx(c) && old(bothfin(x, y) && !iszero(y) && !iszero(x) && inrange(x) && inrange(y)) && old(QE(c, x, y)) + c.Precision - 1 < c.MinExponent && mod(old(QA(c, x, y)), old(QB(x, y))) != 0 ==> RoundedQ(c, old(x.Negative != y.Negative), old(QA(c, x, y)), old(QB(x, y)), old(QE(c, x, y)), d, ret0)
 
 // ---------------------------------------------------------------- constructors and conversions (C17)
 
